@@ -1,7 +1,7 @@
-(* C14 phase 2: agreement of the two reader models on modules without blackbox instances (part D5) *)
+(* C14 phase 2: agreement of the two reader models on the documented subset (part D5) *)
 From stdpp Require Import strings gmap sets pretty.
 From CG Require Import Model.FastVerilog Proofs.FastVerilogProofs Gen.Gen_fastv Base.Sem Base.Compose.
-From CG Require Import Proofs.FvA0 Proofs.FvA1 Proofs.FvA2 Proofs.FvA3 Proofs.FvA4 Proofs.FvA5 Proofs.FvA6 Proofs.FvA7 Proofs.FvA8 Proofs.FvA9 Proofs.FvA10 Proofs.FvB1 Proofs.FvB2 Proofs.FvB3 Proofs.FvB4 Proofs.FvB5 Proofs.FvC1 Proofs.FvC2 Proofs.FvD1 Proofs.FvD2 Proofs.FvD3 Proofs.FvD4.
+From CG Require Import Proofs.FvA0 Proofs.FvA1 Proofs.FvA2 Proofs.FvP1 Proofs.FvE1 Proofs.FvE2 Proofs.FvE3 Proofs.FvE4 Proofs.FvA3 Proofs.FvE5 Proofs.FvE6 Proofs.FvE7 Proofs.FvA4 Proofs.FvA5 Proofs.FvA6 Proofs.FvA7 Proofs.FvA8 Proofs.FvA9 Proofs.FvA10 Proofs.FvB1 Proofs.FvB2 Proofs.FvB3 Proofs.FvB4 Proofs.FvB5 Proofs.FvC1 Proofs.FvC2 Proofs.FvD1 Proofs.FvD2 Proofs.FvD3 Proofs.FvD4.
 Open Scope string_scope.
 
 Lemma support_elim c n : n ∈ support c → n ∈ dom c ∨ ∃ m i, c !! m = Some i ∧ n ∈ n_fi i.
@@ -16,42 +16,43 @@ Qed.
 Section untie.
   Variables (a : ast) (bbs : list bbdef).
   Hypothesis Hsub : in_subset a bbs = true.
-  Hypothesis Hni : no_inst a = true.
   Variables (t0 t1 : string).
   Hypothesis Hfr : t0 ∉ idents a ∧ t1 ∉ idents a.
   Hypothesis Hd : distinct6 t0 t1 "?x".
+  Hypothesis Hdot : dotted t0 = false ∧ dotted t1 = false.
   Let σ := tie_swap t0 t1 "?x".
 
-  Lemma untie_fin c : (∀ m, c !! m = finT t0 t1 a m) → ∀ m, untie_g c !! m = FS a "1'b0" "1'b1" m.
+  Lemma untie_fin c : (∀ m, c !! m = finT t0 t1 bbs a m) → ∀ m, untie_g c !! m = FS bbs a "1'b0" "1'b1" m.
   Proof.
-    intros Hc. unfold σ in *. destruct (six_neq a t0 t1 Hfr Hd) as (N01 & N0x & N00 & N0b & N0c & N1x & N10 & N11 & N1c).
-    assert (HcF : ∀ m, c !! m = FS a t0 t1 m). { intros m. rewrite Hc. by apply (finT_sym a bbs Hsub Hni t0 t1 Hfr N01). }
+    intros Hc. unfold σ in *. destruct (six_neq a t0 t1 Hfr Hd Hdot) as (N01 & N0x & N00 & N0b & N0c & N1x & N10 & N11 & N1c).
+    assert (HcF : ∀ m, c !! m = FS bbs a t0 t1 m). { intros m. rewrite Hc. by apply (finT_sym a bbs Hsub t0 t1 Hfr N01 Hdot). }
     pose proof (σ_inj t0 t1 Hd) as Hinj.
     assert (Hext : untie_g c = rename (tie_swap t0 t1 "?x") c).
     { unfold untie_g. apply (rename_g_ext _ (tie_swap t0 t1 "?x") c). intros n Hn. unfold cname, ty.
-      assert (Hcase : (n = t0 ∧ OConst "1'b0" ∈ all_ops a) ∨ (n = t1 ∧ OConst "1'b1" ∈ all_ops a) ∨ n ∈ idents a).
+      assert (Hcase : (n = t0 ∧ OConst "1'b0" ∈ all_ops bbs a) ∨ (n = t1 ∧ OConst "1'b1" ∈ all_ops bbs a) ∨ keyish a n).
       { apply support_elim in Hn as [Hn|(m & i & Hm & Hi)].
         - apply elem_of_dom in Hn as [i Hi]. rewrite HcF in Hi. unfold FS in Hi.
           destruct (decide (n = t0)) as [->|]; [destruct (decide _); [auto|done]|].
           destruct (decide (n = t1)) as [->|]; [destruct (decide _); [auto|done]|].
-          right. right. destruct (decide (n ∈ idents a)) as [|Hni']; [done|]. destruct (nonident_none a n Hni') as [HG Hin]. rewrite HG in Hi.
+          right. right. assert (Hdec : keyish a n ∨ ¬ keyish a n). { unfold keyish. destruct (decide (n ∈ idents a)); [tauto|]. destruct (dotted n); [tauto|]. right. intros [?|?]; done. }
+          destruct Hdec as [|Hni']; [done|]. destruct (nonident_none a bbs Hsub n Hni') as [HG Hin]. rewrite HG in Hi.
           by rewrite decide_False in Hi.
         - rewrite HcF in Hm. unfold FS in Hm.
           destruct (decide (m = t0)); [destruct (decide _); [injection Hm as <-; set_solver|done]|].
           destruct (decide (m = t1)); [destruct (decide _); [injection Hm as <-; set_solver|done]|].
-          destruct (symG a !! m) as [v|] eqn:E.
+          destruct (symG bbs a !! m) as [v|] eqn:E.
           + injection Hm as <-. cbn [n_fi mk_node] in Hi. apply elem_of_list_to_set in Hi. apply elem_of_list_fmap in Hi as (z & -> & Hz).
-            destruct (symG_ops a bbs Hsub Hni m v z E Hz) as [Hall Hgood]. destruct z as [s|s]; cbn [goodop nm] in *; [auto|].
-            destruct Hgood as [->| ->]; [left|right; left]; done.
+            destruct (symG_ops a bbs Hsub m v z E Hz) as [Hgood Hall]. destruct z as [s|s]; cbn [goodop nm] in *; [right; right; exact Hgood|].
+            pose proof (Hall s eq_refl) as Hin'. destruct Hgood as [->| ->]; [left|right; left]; done.
           + destruct (decide (m ∈ decl_inputs a)); [injection Hm as <-; set_solver|done]. }
       rewrite HcF. destruct Hcase as [[-> Hu]|[[-> Hu]|Hid]].
       - unfold FS. rewrite decide_True, decide_True by done. simpl. symmetry. apply σ_t0.
-      - unfold FS. rewrite (decide_False (P := t1 = t0)) by done. rewrite decide_True, decide_True by done. simpl. symmetry. by apply (σ_t1 a).
-      - rewrite (σ_ident a bbs Hsub t0 t1 Hfr n Hid). unfold FS.
-        destruct Hfr as [Hf0 Hf1]. rewrite decide_False by (intros ->; done). rewrite decide_False by (intros ->; done).
-        destruct (symG a !! n) as [v|] eqn:E.
-        + simpl. pose proof (symG_type a bbs Hsub Hni n v E) as Ht. destruct v.1; try done; vm_compute in Ht; set_solver.
+      - unfold FS. rewrite (decide_False (P := t1 = t0)) by done. rewrite decide_True, decide_True by done. simpl. symmetry. by apply (σ_t1 a t0 t1 Hfr Hd Hdot).
+      - rewrite (σ_ident a bbs Hsub t0 t1 Hfr Hdot n Hid). unfold FS.
+        destruct (tie_not_keyish a t0 t1 Hfr Hdot) as [Hf0 Hf1]. rewrite decide_False by (intros ->; done). rewrite decide_False by (intros ->; done).
+        destruct (symG bbs a !! n) as [v|] eqn:E.
+        + simpl. destruct (symG_type a bbs Hsub n v E) as [Ht|[Ht|Ht]]; [destruct v.1; try done; vm_compute in Ht; set_solver|by rewrite Ht|by rewrite Ht].
         + destruct (decide (n ∈ decl_inputs a)); done. }
-    intros m. rewrite Hext. rewrite (rename_lookup (tie_swap t0 t1 "?x") c m (σ_invol t0 t1 Hd)). rewrite HcF. by apply (swap_FS a bbs Hsub Hni t0 t1 Hfr Hd).
+    intros m. rewrite Hext. rewrite (rename_lookup (tie_swap t0 t1 "?x") c m (σ_invol t0 t1 Hd)). rewrite HcF. by apply (swap_FS a bbs Hsub t0 t1 Hfr Hd Hdot).
   Qed.
 End untie.
